@@ -25,7 +25,6 @@ SMALLEST = "smallestTestReactor/armiRunSmallest.yaml"
 SENTINEL = -7.0  # stepLength / power before the run (never a legal value)
 
 # every setting that takes part in the cycle history; configure() assigns all of them on each call
-_HISTORY_DEFAULTS = None
 _HISTORY_KEYS = ("nCycles", "burnSteps", "cycleLength", "cycleLengths", "availabilityFactor", "availabilityFactors",
                  "powerFractions", "cycles")
 
@@ -55,17 +54,13 @@ class Rig:
 
     # -- settings -----------------------------------------------------------------------------------------
     def configure(self, history=None, settings=None):
-        """Assign the cycle-history settings (all of them: the ones not given fall back to the framework defaults,
-        the simple ones to None when a detailed `cycles` list is given) and any other settings, in place."""
+        """Assign the cycle-history settings (all of them: the ones not given fall back to the framework defaults, which is
+        what the settings reader leaves for keys the user did not write) and any other settings, in place."""
         cs = self.cs
         if history is not None:
-            cs["cycles"] = []  # simple keys are not readable while a detailed history is present
-            vals = dict(self._defaults)
-            if history.get("cycles"):
-                for k in ("burnSteps", "cycleLength", "cycleLengths", "availabilityFactor", "availabilityFactors",
-                          "powerFractions"):
-                    vals[k] = self._defaults[k]
+            vals = dict(self._defaults)  # a key that is not given takes the framework default (cycles: [])
             vals.update(history)
+            cs["cycles"] = []
             for k in _HISTORY_KEYS:
                 if k != "cycles":
                     cs[k] = vals[k]
